@@ -97,6 +97,15 @@ func VerifNewCommunicator(o VerifClientOpts) *Communicator {
 	return newCommunicator(app, c, opts...)
 }
 
+// VerifRefresh runs one registry refresh of the proxy's endpoint manager now (what the refresh
+// ticker does every RefreshEndpointInterval).
+func VerifRefresh(s *ServantProxy) error {
+	if em, ok := s.manager.(*endpointManager); ok {
+		return em.doFresh()
+	}
+	return nil
+}
+
 // VerifGenRequestID calls the id generator of a proxy.
 func VerifGenRequestID(s *ServantProxy) int32 { return s.genRequestID() }
 
